@@ -224,10 +224,47 @@ def classify(tr, names):
     return 'C04/%s/faults=%s;behs=%s;%s;edges=%s' % ('+'.join(names), ','.join(kinds) or 'none', ','.join(behs), nodir, ','.join(ek) or 'none')
 
 
+def corrupted_twins(traces):
+    """Binding self-test: 'drop' = an execution event removed (strict mode must reject), 'stale' = a DONE task made
+    older than a DONE dependency in an end-of-run environment (observer mode must report C04_Fresh)."""
+    import copy
+    out = []
+    for tr in traces:
+        edges = tr['cfg']['edges']
+        ends = [i for i, e in enumerate(tr['events']) if e['type'] == 'end']
+        execs = [i for i, e in enumerate(tr['events']) if e['type'] == 'exec']
+        hit = None
+        for i in ends:
+            env = tr['events'][i]['env']
+            for a, b, _k in edges:
+                if env[a - 1]['st'] == 'DONE' and env[b - 1]['st'] == 'DONE' and env[b - 1]['e'] > 0:
+                    hit = (i, a, b)
+                    break
+            if hit:
+                break
+        if not hit or not execs or any(e['type'] == 'end' and e['verdict'] != 'ok' for e in tr['events']):
+            continue
+        t1 = copy.deepcopy(tr)
+        del t1['events'][execs[0]]
+        out.append(('drop', t1))
+        t2 = copy.deepcopy(tr)
+        i, a, b = hit
+        t2['events'][i]['env'][a - 1]['s'] = t2['events'][i]['env'][b - 1]['e'] - 1
+        out.append(('stale', t2))
+        break
+    return out
+
+
 def judge(ctx, wd, traces, n, tag):
     if not traces:
         return
-    reached, failing = tlc_validate(ctx, wd, traces, n, False, tag + 'o')
+    twins = corrupted_twins(traces) if 'tlc_runs' in getattr(ctx, 'cov', {}) else []
+    reached, failing = tlc_validate(ctx, wd, traces + [t for _, t in twins], n, False, tag + 'o')
+    for (kind, _tw), fl in zip(twins, failing[len(traces):]):
+        if kind == 'stale' and 'C04_Fresh' not in fl:
+            raise tlc.MachineryError('binding self-test: RunsTrace (observer) accepts an end-of-run environment in which a DONE task '
+                                     'started before its DONE dependency ended')
+    reached, failing = reached[:len(traces)], failing[:len(traces)]
     for tr, r, fl in zip(traces, reached, failing):
         if r != len(tr['events']) + 2:
             raise tlc.MachineryError('RunsTrace observer did not consume a history (%d of %d events)' % (r, len(tr['events'])))
@@ -241,7 +278,13 @@ def judge(ctx, wd, traces, n, tag):
                                                                   {'type': e['type'], 'st': [x['st'] for x in e['env']]}
                                                                   for e in tr['events']])[:600]),
                           dict(trace=tr), module='conf_runs')
-    reached, _ = tlc_validate(ctx, wd, traces, n, True, tag + 's')
+    drops = [t for k, t in twins if k == 'drop']
+    reached, _ = tlc_validate(ctx, wd, traces + drops, n, True, tag + 's')
+    for tw, r in zip(drops, reached[len(traces):]):
+        if r == len(tw['events']) + 2:
+            raise tlc.MachineryError('binding self-test: RunsTrace (strict) accepts a history with one execution removed')
+        ctx.cov['corrupted_traces_rejected'] = ctx.cov.get('corrupted_traces_rejected', 0) + 1
+    reached = reached[:len(traces)]
     ndrift = 0
     for tr, r in zip(traces, reached):
         if r != len(tr['events']) + 2:
